@@ -734,6 +734,34 @@ func (g *Graph) factsLattice() Lattice[Facts] {
 				if g.inl != nil && g.inl.bound[st.Node] {
 					return s // the values were bound at the returns of the expanded helper
 				}
+				// calls of functions of the module may assign fields: facts about fields of those names are stale
+				if ws := g.P.nodeFieldWrites(info, st.Node); len(ws) > 0 {
+					var stale []string
+					for k := range s.m {
+					nextAtom:
+						for _, w := range ws {
+							for _, root := range w.roots {
+								if !mentions(k, root) {
+									continue
+								}
+								for fld := range w.fields {
+									if mentionsField(k, fld) {
+										stale = append(stale, k)
+										break nextAtom
+									}
+								}
+							}
+						}
+					}
+					if len(stale) > 0 {
+						s = s.clone()
+						for _, k := range stale {
+							delete(s.m, k)
+							delete(s.rel, k)
+							delete(s.bexp, k)
+						}
+					}
+				}
 				lhs := assignedLHS(st.Node)
 				var unlockRoots []string
 				for _, c := range callsIn(st.Node) {
